@@ -20,7 +20,7 @@ import subprocess
 import sys
 
 ROOT = os.path.dirname(os.path.dirname(os.path.abspath(__file__)))
-OUT = os.path.join(ROOT, "mutation")
+OUT = os.environ.get("MUT_OUT") or os.path.join(ROOT, "mutation")
 PY = "/venv/bin/python"
 
 # source file -> checks whose property is anchored in it (cheapest first)
@@ -44,6 +44,14 @@ TARGETS = {
     "src/tally/commands/inspect.py": ["C18"],
     "src/tally/commands/init.py": ["C20", "C15"],
 }
+
+# round 2 (after the checks had moved to whole command-line runs): the glue files, judged by every check that drives them through the CLI
+_UP = ["C11", "C12", "C16", "C20", "C07", "C09", "C10", "C15", "C17"]
+GLUE = {"src/tally/commands/run.py": _UP, "src/tally/cli.py": _UP + ["C14", "C19"], "src/tally/analyzer.py": _UP + ["C06"],
+        "src/tally/report.py": ["C12", "C06", "C10", "C11", "C20"], "src/tally/config_loader.py": _UP + ["C03", "C18"],
+        "src/tally/commands/explain.py": ["C16", "C10", "C17"], "src/tally/commands/discover.py": ["C19", "C16", "C17"]}
+if os.environ.get("MUT_ROUND") == "2":
+    TARGETS = GLUE
 
 CMP = {"<": "<=", "<=": "<", ">": ">=", ">=": ">", "==": "!=", "!=": "=="}
 STRIP_METHODS = {"lower", "upper", "strip", "lstrip", "rstrip", "casefold", "title"}
@@ -180,7 +188,8 @@ def cmd_gen(a):
         ms = gen_for(p, src)
         n = len(ms)
         k = a.per_file
-        pick = ms if n <= k else [ms[(i * n) // k] for i in range(k)]
+        off = int(os.environ.get("MUT_OFFSET", "0"))
+        pick = ms if n <= k else [ms[((i * n) // k + off) % n] for i in range(k)]
         for i, m in enumerate(pick):
             m["file"] = rel
             m["id"] = "%s:%d:%s:%d" % (os.path.basename(rel), m["line"], m["kind"], m["start"])
